@@ -258,5 +258,18 @@ LawDivZero ==
      /\ (~IsFloating(acc) /\ ~IsFloating(b)) => (Div(acc, b) = Err("FOAR0001") /\ Mod(acc, b) = Err("FOAR0001"))
      /\ IDiv(acc, b) \in {Err("FOAR0001"), Err("FOAR0001|FOAR0002")}
      /\ (IsFloating(acc) \/ IsFloating(b)) => (IsNaN(Div(acc, b)) \/ IsInf(Div(acc, b)))
-Laws == (Small /\ ~IsErr(acc)) => LawDivMod /\ LawIdivTrunc /\ LawFloorCeil /\ LawHalfEven /\ LawTypes /\ LawNegInvolution /\ LawDivZero
+(* Scaling: exact arithmetic commutes with multiplying both operands by K.  TLC checks the law for
+   small K; the binding uses it with K = 10^20 to reach integers and decimals far beyond 2^53
+   (TLC integers are 32-bit), where float round trips in an implementation become visible. *)
+ScaleV(v, K) == [v EXCEPT !.q = QMul(v.q, <<K, 1>>)]
+LawScale ==
+  \A b \in Grid : \A K \in {3, 10} : (TLCGet("level") = 1 /\ Exact(acc) /\ Exact(b) /\ Abs(acc.q[1]) < 300 /\ Abs(b.q[1]) < 300) =>
+     LET sa == ScaleV(acc, K)  sb == ScaleV(b, K) IN
+     /\ Add(sa, sb).q = QMul(Add(acc, b).q, <<K, 1>>)
+     /\ Sub(sa, sb).q = QMul(Sub(acc, b).q, <<K, 1>>)
+     /\ Mul(sa, sb).q = QMul(Mul(acc, b).q, <<K * K, 1>>)
+     /\ ~IsZero(b) => /\ IDiv(sa, sb) = IDiv(acc, b)
+                      /\ Mod(sa, sb).q = QMul(Mod(acc, b).q, <<K, 1>>)
+                      /\ Div(sa, sb).q = Div(acc, b).q
+Laws == (Small /\ ~IsErr(acc)) => LawScale /\ LawDivMod /\ LawIdivTrunc /\ LawFloorCeil /\ LawHalfEven /\ LawTypes /\ LawNegInvolution /\ LawDivZero
 =============================================================================
